@@ -144,7 +144,7 @@ pub fn argument_safe(lines: &[String]) -> bool {
     !lines.is_empty()
         && lines.iter().map(|l| l.len() + 9).sum::<usize>() < 120_000 // keep far below ARG_MAX
         && !(lines.len() == 1 && lines[0] == "-")
-        && lines.iter().all(|l| !l.is_empty() && (!l.starts_with('-') || (l == "-" && lines.len() > 1)) && !l.contains('\0'))
+        && lines.iter().all(|l| (!l.starts_with('-') || (l == "-" && lines.len() > 1)) && !l.contains('\0'))
 }
 
 /// Is the list representable as lines of a stream (no line feed inside a test case, no trailing CR that
@@ -281,6 +281,7 @@ pub fn make_case(channel: &str, lines: &[String], content: &[u8], cfg: &Cfg, rng
         env: vec![],
         file_name: String::new(),
         stdin_kind: 0,
+        file_kind: 0,
         stdin_offset: 0,
         relative_path: false,
         cwd: None,
@@ -311,6 +312,7 @@ pub fn make_probe_case(content: &[u8], cfg: &Cfg, rng: &mut Rng) -> Case {
         env: vec![],
         file_name: String::new(),
         stdin_kind: 0,
+        file_kind: 0,
         stdin_offset: 0,
         relative_path: false,
         cwd: None,
